@@ -60,7 +60,8 @@ def base_meshes(tier):
 
 GEOS = [({"origin": [0.0, 0.0, 0.0], "dx0": [0.25, 0.25, 0.25]}, True),
         ({"origin": [1.0, -2.0, 0.5], "dx0": [0.25, 0.5, 0.125]}, True),
-        ({"origin": [1.0, -2.0, 0.5], "dx0": [0.1, 0.3, 0.7]}, False)]
+        ({"origin": [1.0, -2.0, 0.5], "dx0": [0.1, 0.3, 0.7]}, False),
+        (dict(scope.FAR), True), (dict(scope.MICRO), True)]
 
 
 def cases(tier, seed):
@@ -70,17 +71,21 @@ def cases(tier, seed):
             mesh = rot(base, r)
             for n in range(3):
                 for gi, (geo, dyadic) in enumerate(GEOS):
-                    if (tier == "quick" or mi >= 3) and gi != (mi + r + n + seed) % 3 and not (gi == 1 and r == 0 and mi < 3):
+                    if gi >= 3:
+                        # far origin / tiny cells: one rotation per mesh and normal
+                        if r != (mi + n) % 3 or mi >= 3:
+                            continue
+                    elif (tier == "quick" or mi >= 3) and gi != (mi + r + n + seed) % 3 and not (gi == 1 and r == 0 and mi < 3):
                         continue
                     d = dict(mesh)
                     d.update(geo)
-                    d.update({"fields": ["A", "C", "G"], "payload": ["affine%d" % n, "const%d" % n, "coded"], "seed": seed,
+                    d.update({"fields": ["A", "C", "G", "H"], "payload": ["affine%d" % n, "const%d" % n, "coded", "hconst%d" % n], "seed": seed,
                               "layout": [scope.layouts(len(b), 'idrev')[-1 if (mi + r) % 2 else 0] for b in mesh["levels"]]})
                     out.append({"desc": d, "normal": n, "dyadic": dyadic, "w": len(mesh["levels"])})
     return out
 
 
-FIELD_LISTS = [["A"], ["A", "C", "G"], ["G", "grid_level"], ["all"], ["G", "A"], ["C", "grid_level", "A"]]
+FIELD_LISTS = [["A"], ["A", "C", "G", "H"], ["G", "grid_level"], ["all"], ["G", "A"], ["C", "grid_level", "A"]]
 
 
 def check_slice(rec, sub, sm, ref, m, L, fl, out):
@@ -113,7 +118,7 @@ def check_slice(rec, sub, sm, ref, m, L, fl, out):
         ok_exact = R["exact_ok"]
         tol = 64 * EPS * R["mag"][..., fi] + 1e-300
         with np.errstate(invalid="ignore"):
-            bad_exact = ok_exact & ~(np.abs(got - R["exact"][..., fi]) <= tol)
+            bad_exact = ok_exact & ~((got == R["exact"][..., fi]) | (np.abs(got - R["exact"][..., fi]) <= tol))
         bad_exact &= ~pois
         if bad_exact.any():
             i, j = np.argwhere(bad_exact)[0]
@@ -125,7 +130,8 @@ def check_slice(rec, sub, sm, ref, m, L, fl, out):
             member = np.zeros((nx, ny), dtype=bool)
             for ok, e, mag in R["cands"]:
                 with np.errstate(invalid="ignore"):
-                    member |= ok & (np.abs(got - e[..., fi]) <= 64 * EPS * mag[..., fi] + 1e-300)
+                    member |= ok & ((got == e[..., fi]) | (np.abs(got - e[..., fi]) <= 64 * EPS * mag[..., fi] + 1e-300)
+                                    | (np.isnan(got) & np.isnan(e[..., fi])))      # inf * 0 in a bracket the statement leaves open
             bad = rest & ~member
             if bad.any():
                 i, j = np.argwhere(bad)[0]
